@@ -179,7 +179,7 @@ func (config *JwtConfig) ValidateToken(auth string) (*jwt.Token, error) {
 
 	checkAud := false
 	for _, aud := range audience {
-		if claims.VerifyAudience(aud, false) {
+		if claims.VerifyAudience(aud, true) {
 			checkAud = true
 		}
 	}
@@ -189,7 +189,7 @@ func (config *JwtConfig) ValidateToken(auth string) (*jwt.Token, error) {
 
 	checkIss := false
 	for _, iss := range issuer {
-		if claims.VerifyIssuer(iss, false) {
+		if claims.VerifyIssuer(iss, true) {
 			checkIss = true
 		}
 	}
